@@ -64,6 +64,12 @@ pub trait Proto {
     /// None = ExactSizeIterator not declared
     fn len(&self) -> Option<usize>;
     fn size_hint(&self) -> (usize, Option<usize>);
+    fn nth(&mut self, k: usize) -> Option<Y>;
+    /// None = not offered
+    fn nth_back(&mut self, k: usize) -> Option<Option<Y>>;
+    /// consuming calls: the iterator is left empty
+    fn last(&mut self) -> Option<Y>;
+    fn count(&mut self) -> usize;
 }
 pub struct Fwd<I>(pub I);
 impl<I: Iterator> Proto for Fwd<I>
@@ -81,6 +87,18 @@ where
     }
     fn size_hint(&self) -> (usize, Option<usize>) {
         self.0.size_hint()
+    }
+    fn nth(&mut self, k: usize) -> Option<Y> {
+        self.0.nth(k).map(|x| x.y())
+    }
+    fn last(&mut self) -> Option<Y> {
+        self.0.by_ref().last().map(|x| x.y())
+    }
+    fn count(&mut self) -> usize {
+        self.0.by_ref().count()
+    }
+    fn nth_back(&mut self, _k: usize) -> Option<Option<Y>> {
+        None
     }
 }
 /// forward + exact size
@@ -101,6 +119,18 @@ where
     fn size_hint(&self) -> (usize, Option<usize>) {
         self.0.size_hint()
     }
+    fn nth(&mut self, k: usize) -> Option<Y> {
+        self.0.nth(k).map(|x| x.y())
+    }
+    fn last(&mut self) -> Option<Y> {
+        self.0.by_ref().last().map(|x| x.y())
+    }
+    fn count(&mut self) -> usize {
+        self.0.by_ref().count()
+    }
+    fn nth_back(&mut self, _k: usize) -> Option<Option<Y>> {
+        None
+    }
 }
 /// double ended + exact size
 pub struct Dx<I>(pub I);
@@ -120,6 +150,18 @@ where
     fn size_hint(&self) -> (usize, Option<usize>) {
         self.0.size_hint()
     }
+    fn nth(&mut self, k: usize) -> Option<Y> {
+        self.0.nth(k).map(|x| x.y())
+    }
+    fn last(&mut self) -> Option<Y> {
+        self.0.by_ref().last().map(|x| x.y())
+    }
+    fn count(&mut self) -> usize {
+        self.0.by_ref().count()
+    }
+    fn nth_back(&mut self, k: usize) -> Option<Option<Y>> {
+        Some(self.0.nth_back(k).map(|x| x.y()))
+    }
 }
 /// double ended without exact size (some adaptors)
 pub struct Dd<I>(pub I);
@@ -138,6 +180,18 @@ where
     }
     fn size_hint(&self) -> (usize, Option<usize>) {
         self.0.size_hint()
+    }
+    fn nth(&mut self, k: usize) -> Option<Y> {
+        self.0.nth(k).map(|x| x.y())
+    }
+    fn last(&mut self) -> Option<Y> {
+        self.0.by_ref().last().map(|x| x.y())
+    }
+    fn count(&mut self) -> usize {
+        self.0.by_ref().count()
+    }
+    fn nth_back(&mut self, k: usize) -> Option<Option<Y>> {
+        Some(self.0.nth_back(k).map(|x| x.y()))
     }
 }
 
@@ -263,7 +317,7 @@ pub trait QApi: Sized + Clone + for<'de> serde::Deserialize<'de> {
     fn into_iter_vec(self) -> Vec<(Item, Pri)>;
     /// consume `n` elements from the front of iter_mut (or `&mut queue`), applying f, then drop / forget
     /// `nb` further elements are taken from the back where the iterator offers next_back
-    fn iter_mut_front(&mut self, n: usize, nb: usize, via_ref: bool, forget: bool, f: &mut dyn FnMut(&mut Item, &mut Pri));
+    fn iter_mut_front(&mut self, n: usize, nb: usize, back_first: bool, via_ref: bool, forget: bool, f: &mut dyn FnMut(&mut Item, &mut Pri));
     fn append(&mut self, o: &mut Self);
     fn extend_it(&mut self, it: PairIter);
     fn clear(&mut self);
@@ -431,7 +485,7 @@ macro_rules! common_impl {
 impl<H: BuildHasher + Default + Clone + std::fmt::Debug> QApi for PriorityQueue<Item, Pri, H> {
     const KIND: &'static str = "pq";
     common_impl!();
-    fn iter_mut_front(&mut self, n: usize, _nb: usize, via_ref: bool, forget: bool, f: &mut dyn FnMut(&mut Item, &mut Pri)) {
+    fn iter_mut_front(&mut self, n: usize, _nb: usize, _back_first: bool, via_ref: bool, forget: bool, f: &mut dyn FnMut(&mut Item, &mut Pri)) {
         let mut it = if via_ref { (&mut *self).into_iter() } else { self.iter_mut() };
         for _ in 0..n {
             match it.next() {
@@ -511,18 +565,28 @@ impl<H: BuildHasher + Default + Clone + std::fmt::Debug> QApi for PriorityQueue<
 impl<H: BuildHasher + Default + Clone> QApi for DoublePriorityQueue<Item, Pri, H> {
     const KIND: &'static str = "dpq";
     common_impl!();
-    fn iter_mut_front(&mut self, n: usize, nb: usize, via_ref: bool, forget: bool, f: &mut dyn FnMut(&mut Item, &mut Pri)) {
+    fn iter_mut_front(&mut self, n: usize, nb: usize, back_first: bool, via_ref: bool, forget: bool, f: &mut dyn FnMut(&mut Item, &mut Pri)) {
         let mut it = if via_ref { (&mut *self).into_iter() } else { self.iter_mut() };
+        if back_first {
+            for _ in 0..nb {
+                match it.next_back() {
+                    Some((i, p)) => f(i, p),
+                    None => break,
+                }
+            }
+        }
         for _ in 0..n {
             match it.next() {
                 Some((i, p)) => f(i, p),
                 None => break,
             }
         }
-        for _ in 0..nb {
-            match it.next_back() {
-                Some((i, p)) => f(i, p),
-                None => break,
+        if !back_first {
+            for _ in 0..nb {
+                match it.next_back() {
+                    Some((i, p)) => f(i, p),
+                    None => break,
+                }
             }
         }
         if forget {
